@@ -6136,6 +6136,8 @@ class Path(Shape, MutableSequence):
     def vertical(self, *y_points, relative=False, **kwargs):
         for index in range(len(y_points)):
             start_pos = self.current_point
+            if start_pos is None:
+                raise ValueError("vertical line requires a current point")
             if relative:
                 self.append(
                     Line(
@@ -6157,6 +6159,8 @@ class Path(Shape, MutableSequence):
     def horizontal(self, *x_points, relative=False, **kwargs):
         for index in range(len(x_points)):
             start_pos = self.current_point
+            if start_pos is None:
+                raise ValueError("horizontal line requires a current point")
             if relative:
                 self.append(
                     Line(
@@ -6180,6 +6184,8 @@ class Path(Shape, MutableSequence):
         the second control point in the previous path."""
         for index in range(len(points)):
             start_pos = self.current_point
+            if start_pos is None:
+                raise ValueError("smooth curve requires a current point")
             control1 = self.smooth_point
             end_pos = points[index]
             if end_pos in ("z", "Z"):
@@ -6194,6 +6200,8 @@ class Path(Shape, MutableSequence):
     def quad(self, *points, relative=False, **kwargs):
         for index in range(0, len(points), 2):
             start_pos = self.current_point
+            if start_pos is None:
+                raise ValueError("curve requires a current point")
             control = points[index]
             if control in ("z", "Z"):
                 control = self.z_point
@@ -6218,6 +6226,8 @@ class Path(Shape, MutableSequence):
         the second control point in the previous path."""
         for index in range(0, len(points), 2):
             start_pos = self.current_point
+            if start_pos is None:
+                raise ValueError("smooth curve requires a current point")
             control1 = self.smooth_point
             control2 = points[index]
 
@@ -6252,6 +6262,8 @@ class Path(Shape, MutableSequence):
     def cubic(self, *points, relative=False, **kwargs):
         for index in range(0, len(points), 3):
             start_pos = self.current_point
+            if start_pos is None:
+                raise ValueError("curve requires a current point")
             control1 = points[index]
             if control1 in ("z", "Z"):
                 control1 = self.z_point
@@ -6298,6 +6310,8 @@ class Path(Shape, MutableSequence):
     def arc(self, *arc_args, relative=False, **kwargs):
         for index in range(0, len(arc_args), 6):
             start_pos = self.current_point
+            if start_pos is None:
+                raise ValueError("arc requires a current point")
             rx = arc_args[index]
             ry = arc_args[index + 1]
             if rx < 0:
